@@ -169,7 +169,7 @@ def accepts_all_queued(ctx):
     """every connection the listening socket hands over reaches the table: Acceptor.serviceAccepts queues each accepted (cs, ca)
     on .axes unconditionally, and Server / ServerTls take that method as it is (the stale-entry rule is applied later, in
     serviceAxes, where old and new meet)"""
-    from ..rules import path_condition, formula_implies_f, formula_of
+    from ..rules import path_condition, formula_implies_f, formula_of, transparent_override
     ctx.rule("T6-accepts", "Acceptor.serviceAccepts: axes.append((cs, ca)) for every truthy cs; Server/ServerTls do not override it")
     A = ctx.cls("tcp.serving", "Acceptor")
     f = A.own_method("serviceAccepts")
@@ -187,9 +187,16 @@ def accepts_all_queued(ctx):
     ctx.check(ok, "T6-accepts", f, "every accepted connection is queued on .axes",
               "a connection that is accepted and then dropped (address already in the table, any other filter) never reaches "
               "serviceAxes: the stale entry for its address stays in the table and is never shut down, the new connection is lost")
+    S = ctx.cls("tcp.serving", "Server")
+    T = ctx.cls("tcp.serving", "ServerTls")
+    for m in ("shutdownIx", "shutCloseIx", "closeIx", "removeIx"):
+        if m in S.methods:
+            ctx.check(not _own(T, m) or transparent_override(T.methods[m]), "T6-accepts", T.node, "ServerTls inherits Server.%s" % m,
+                      "Server's stale-entry handling calls self.%s(ca) meaning the entry in .ixes: an override that looks the address "
+                      "up elsewhere first (the handshake table) shuts down the new connection and leaves the stale one alone" % m)
     for cn in ("Server", "ServerTls"):
         C = ctx.cls("tcp.serving", cn)
         for m in ("serviceAccepts", "accept"):
-            ctx.check(not _own(C, m), "T6-accepts", C.node, "%s inherits Acceptor.%s" % (cn, m),
+            ctx.check(not _own(C, m) or transparent_override(C.methods[m]), "T6-accepts", C.node, "%s inherits Acceptor.%s" % (cn, m),
                       "an override of the accept path in the server class needs its own proof that every accepted connection "
                       "reaches the table")
